@@ -72,7 +72,8 @@ def generate_mesh(vertices, edges, cells, ne=4, **kwargs):
             # TODO: Make it work with polygonal vertex model
             if (len(e) == 2 and
                 len(vertices[e[0]].ownCells) < 3 and
-                len(vertices[e[1]].ownCells) < 3):
+                len(vertices[e[1]].ownCells) < 3 and
+                not pinches_a_cell(e, vertices, cells)):
                 vertices_to_join.append(e)
 
     vertexToRemove = []
@@ -122,6 +123,18 @@ def generate_mesh(vertices, edges, cells, ne=4, **kwargs):
     # exit()
 
     return vertices, edges, cells, nEdgeArray
+
+
+def pinches_a_cell(e, vertices, cells):
+    """True if joining the two ends of the two-vertex edge e would pinch a cell: some cell
+    has both ends in its cycle without them being consecutive there, so after the merge
+    it would have to visit the merged vertex twice."""
+    for cid in set(vertices[e[0]].ownCells) & set(vertices[e[1]].ownCells):
+        ids = [v.id for v in cells[cid].vertices]
+        gap = abs(ids.index(e[0]) - ids.index(e[1]))
+        if gap != 1 and gap != len(ids) - 1:
+            return True
+    return False
 
 
 def eid_from_vertex(earr, vbel):
